@@ -14,7 +14,7 @@ MODULES = ["TLVerif.Props.C39"]
 THEOREMS = ["TLVerif.Props.C39." + t for t in [
     "pool_limit_configured", "busy_le_create", "get_blocks_when_full", "recheck_keeps_waiting_when_full",
     "admitted_only_below_limit", "put_then_recheck_admits", "closed_pool_admits_nothing",
-    "reqmem_within_limit", "admitted_only_if_fits", "not_fitting_waits", "requestBufTake_ge",
+    "reqmem_within_limit", "admitted_requests_bounded", "admitted_only_if_fits", "not_fitting_waits", "requestBufTake_ge",
     "max_packet_fits_limit", "code_shape"]]
 
 
